@@ -50,7 +50,9 @@ def seeded_variants(pid):
       continue
     exp = meta.get('expected', {})
     if pid in exp:
-      out.append((os.path.basename(os.path.dirname(meta_path)), os.path.join(os.path.dirname(meta_path), 'patch.diff'), exp[pid]))
+      # a change recorded as out of reach of the rules (DESIGN 3.0b / 8.1) is still run, and reported as such - never as killed
+      rules = ['<expected-undetected>'] if meta.get('expected_undetected') else exp[pid]
+      out.append((os.path.basename(os.path.dirname(meta_path)), os.path.join(os.path.dirname(meta_path), 'patch.diff'), rules))
   return out
 
 
@@ -187,6 +189,12 @@ def run(pid, mod, root=None):
       continue
     new = [v for v in o['unlisted'] if v['key'] not in base_keys]
     hit = sorted({v['rule'] for v in new})
+    if expected_rules == ['<expected-undetected>']:
+      result['seeded_total'] -= 1
+      result['seeded_undetected_known'] = result.get('seeded_undetected_known', 0) + (0 if new else 1)
+      result['variants'].append(dict(kind='seeded', name=name, outcome='reported after all' if new else
+                                     'NOT DETECTED (recorded as out of reach of the rules, DESIGN 3.0b)', rules=hit))
+      continue
     if new and (not expected_rules or set(hit) & set(expected_rules)):
       result['seeded_killed'] += 1
       result['variants'].append(dict(kind='seeded', name=name, outcome='killed', rules=hit,
